@@ -1,0 +1,11 @@
+//go:build verif
+
+package curve25519
+
+// Contracts for the deductive checker in /verif (comment-only; compiled only under the verif tag).
+
+// FromAffine accepts (x, y) only if the returned point has an affine y-coordinate equal to y
+// (the point recovered from x, or its negation).
+//@ func (*Curve).FromAffine
+//@   property C13
+//@   ensures err == nil ==> res(result.AffineY(), 1) == nil && y.Equal(res(result.AffineY(), 0))
